@@ -16,8 +16,15 @@ from .common import HarnessError
 _tree_hash = None
 
 
+_tree_files = None
+
+
 def tree_hash():
-    global _tree_hash
+    """Hash of the sources as they are in the repository now.  The bytes that were hashed are kept and written to a
+    snapshot inside the cache (src_root()); everything is compiled from that snapshot, so a change to the repository
+    while a check is running can neither mix two trees in one run nor leave artefacts of one tree under the key of
+    another."""
+    global _tree_hash, _tree_files
     if _tree_hash is None:
         files = []
         for root in (os.path.join(C.REPO, "sbepp", "src"), os.path.join(C.REPO, "sbeppc", "src")):
@@ -26,12 +33,45 @@ def tree_hash():
                     files.append(os.path.join(d, f))
         files.sort()
         parts = []
+        content = {}
         for f in files:
             with open(f, "rb") as fh:
-                parts.append(os.path.relpath(f, C.REPO))
-                parts.append(fh.read())
+                rel = os.path.relpath(f, C.REPO)
+                data = fh.read()
+                parts.append(rel)
+                parts.append(data)
+                content[rel] = data
+        with open(os.path.join(C.REPO, "CMakeLists.txt"), "rb") as fh:
+            content["CMakeLists.txt"] = fh.read()
+        _tree_files = content
         _tree_hash = C.sha(*parts)[:16]
     return _tree_hash
+
+
+def src_root():
+    """Directory holding a byte-exact copy of the hashed sources (sbepp/src, sbeppc/src, CMakeLists.txt)."""
+    d = os.path.join(tree_dir(), "src")
+    ok = os.path.join(d, ".complete")
+    if os.path.exists(ok):
+        return d
+    with _Lock(d + ".lock"):
+        if os.path.exists(ok):
+            return d
+        for rel, data in _tree_files.items():
+            p = os.path.join(d, rel)
+            C.ensure_dir(os.path.dirname(p))
+            with open(p, "wb") as fh:
+                fh.write(data)
+        C.write_file(ok, tree_hash())
+    return d
+
+
+def sbepp_inc():
+    return os.path.join(src_root(), "sbepp", "src")
+
+
+def sbeppc_src():
+    return os.path.join(src_root(), "sbeppc", "src")
 
 
 def tree_dir():
@@ -74,7 +114,7 @@ class _Lock:
 
 
 def repo_version():
-    txt = C.read_text(os.path.join(C.REPO, "CMakeLists.txt"))
+    txt = C.read_text(os.path.join(src_root(), "CMakeLists.txt"))
     m = re.search(r"project\(sbepp\s+VERSION\s+([0-9.]+)", txt)
     return m.group(1) if m else "0.0.0"
 
@@ -95,7 +135,7 @@ SBEPPC_VARIANTS = {
 def _build_info_cpp(d):
     p = os.path.join(d, "build_info.cpp")
     if not os.path.exists(p):
-        tmpl = C.read_text(os.path.join(C.SBEPPC_SRC, "sbepp", "sbeppc", "build_info.cpp.in"))
+        tmpl = C.read_text(os.path.join(sbeppc_src(), "sbepp", "sbeppc", "build_info.cpp.in"))
         C.write_file(p, tmpl.replace("@sbepp_VERSION@", repo_version()))
     return p
 
@@ -110,8 +150,8 @@ def sbeppc(variant="rel", main_src=None):
         if os.path.exists(out):
             return out
         flags = SBEPPC_VARIANTS[variant]
-        src = main_src or os.path.join(C.SBEPPC_SRC, "sbepp", "sbeppc", "main.cpp")
-        cmd = flags + ["-DFMT_SHARED", "-I" + C.SBEPPC_SRC, "-I" + C.SBEPP_INC,
+        src = main_src or os.path.join(sbeppc_src(), "sbepp", "sbeppc", "main.cpp")
+        cmd = flags + ["-DFMT_SHARED", "-I" + sbeppc_src(), "-I" + sbepp_inc(),
                        "-isystem", C.FMT_INC, src, _build_info_cpp(d),
                        "-o", out + ".tmp", "-L" + C.FMT_LIBDIR, "-lfmt", "-lpugixml",
                        "-Wl,-rpath," + C.FMT_LIBDIR]
@@ -209,7 +249,7 @@ def compile_driver(src_text, cfg, inc_dirs=(), dep_key="", libs=(), name="drv", 
             return False, None, C.read_text(errf)
         src = base + ".cpp"
         C.write_file(src, src_text)
-        cmd = flags + ["-I" + C.SBEPP_INC, "-I" + C.RT] + ["-I" + i for i in inc_dirs]
+        cmd = flags + ["-I" + sbepp_inc(), "-I" + C.RT] + ["-I" + i for i in inc_dirs]
         if syntax_only:
             cmd += ["-fsyntax-only", src]
         else:
